@@ -33,6 +33,25 @@ theorem fifo_start (tr : List Act) (i : Nat) :
     ((run init tr).arbs i).started <+: execIds ((run init tr).arbs i).sent :=
   (nothing_after_stop tr i).trans (execIds_prefix (List.takeWhile_prefix _))
 
+/-- **whoever sends it.**  `Act.send i c` is the one way a command reaches arbiter `i` — from the owner,
+from a cloned handle on another thread, or from a task running on arbiter `i` itself
+(`Arbiter::current().spawn(..)`); T1 facts `…OnlySends`.  A command `u` sent once a `Stop` is in the send
+history never starts, whatever happens afterwards (further sends of any thread included). -/
+theorem sent_after_stop_never_starts (tr tr' : List Act) (i u : Nat) (c : Cmd)
+    (hstop : Cmd.stop ∈ ((run init tr).arbs i).sent)
+    (hfresh : Cmd.exec u ∉ ((run init tr).arbs i).sent) :
+    u ∉ ((run (step (run init tr) (.send i c)) tr').arbs i).started := by
+  intro hu
+  have hrun : run (step (run init tr) (.send i c)) tr' = run init (tr ++ (Act.send i c :: tr')) := by
+    rw [run_append]; rfl
+  rw [hrun] at hu
+  have hpre : ((run init tr).arbs i).sent <+: ((run init (tr ++ (Act.send i c :: tr'))).arbs i).sent := by
+    rw [run_append]; exact sent_prefix_run _ _ _
+  obtain ⟨rest, hrest⟩ := hpre
+  have h1 := (nothing_after_stop (tr ++ (Act.send i c :: tr')) i).subset hu
+  rw [← hrest, preStop_append_of_mem hstop] at h1
+  exact hfresh (preStop_subset _ _ (mem_execIds.mp h1))
+
 /-- **at most once.** No task starts more often than it was sent; if every send carried a distinct
 future (as in Rust, where a future is moved into `spawn`), no task starts twice. -/
 theorem at_most_once (tr : List Act) (i t : Nat) :
@@ -59,6 +78,29 @@ theorem spawn_false_when_gone (tr : List Act) (i : Nat) (c : Cmd)
   · intro hg; simp [step, hc, hg, Arb.push]
   · intro hg; simp [step, hc, hg, Arb.push]
 
+/-- **a later command starts later — also when a task on the arbiter itself sent it.**  Command `u`
+(not sent before) is sent to the live arbiter `i` at some point — by any thread; in particular by a task
+running on `i` while commands of other threads are still buffered in the channel.  If `u` has started in
+some continuation, then everything sent to `i` before `u` has started before it, in the order sent. -/
+theorem later_send_starts_later (tr tr' : List Act) (i u : Nat)
+    (hc : ((run init tr).arbs i).created = true) (hg : ((run init tr).arbs i).gone = false)
+    (hfresh : Cmd.exec u ∉ ((run init tr).arbs i).sent)
+    (hu : u ∈ ((run (step (run init tr) (.send i (.exec u))) tr').arbs i).started) :
+    execIds ((run init tr).arbs i).sent ++ [u] <+:
+      ((run (step (run init tr) (.send i (.exec u))) tr').arbs i).started := by
+  have hrun : run (step (run init tr) (.send i (.exec u))) tr' =
+      run init (tr ++ (Act.send i (.exec u) :: tr')) := by rw [run_append]; rfl
+  have hfifo := fifo_start (tr ++ (Act.send i (.exec u) :: tr')) i
+  rw [← hrun] at hfifo
+  have hstep := ((spawn_false_when_gone tr i (.exec u) hc).2 hg).2
+  obtain ⟨rest, hrest⟩ := sent_prefix_run (step (run init tr) (.send i (.exec u))) tr' i
+  rw [hstep] at hrest
+  have hA : u ∉ execIds ((run init tr).arbs i).sent := fun h => hfresh (mem_execIds.mp h)
+  rw [← hrest, execIds_append, execIds_append] at hfifo
+  have hk := List.prefix_iff_eq_take.mp hfifo
+  simp only [execIds] at hk
+  rw [hk] at hu ⊢
+  exact take_covers _ _ _ _ hA hu
 /-- **`join` returns only after the loop has ended**: the runner returned, its receiver is dropped
 (so `spawn` is false from here on), `Deregister` is in the system queue, and no task of this arbiter
 starts in any continuation of the schedule. -/
@@ -115,6 +157,16 @@ example : (run (run init demo) [.runner 0, .send 0 (.exec 13), .close 0, .send 0
     = [true, true, true, true, true, false] := by decide
 example : joinReturns (run (run init demo) [.runner 0, .close 0, .fin 0]) 0 = true := by decide
 example : blockOn ({ pend := 3, out := 42 } : Fut Nat) = some 42 := by decide
+-- a task on arbiter 0 (10, started) sends to its own arbiter while 11 — sent by another thread — is still
+-- buffered: 12 queues behind 11; whichever way the run goes on, 12 starts after 10 and 11
+def selfSend : List Act :=
+  [.newArb 0, .send 0 (.exec 10), .runner 0, .task 0, .send 0 (.exec 11), .send 0 (.exec 12)]
+example : ((run init selfSend).arbs 0).started = [10] ∧ ((run init selfSend).arbs 0).recvd = 1 ∧
+    ((run init selfSend).arbs 0).sent = [.exec 10, .exec 11, .exec 12] := by decide
+example : ((run (run init selfSend) [.runner 0, .runner 0, .task 0, .task 0]).arbs 0).started = [10, 11, 12] := by decide
+-- … and with a `Stop` buffered instead (the owner called `stop()` while task 10 held the thread), 12 never starts
+example : ((run init ([.newArb 0, .send 0 (.exec 10), .runner 0, .task 0, .send 0 .stop, .send 0 (.exec 12)] ++
+    List.replicate 4 (.runner 0) ++ List.replicate 4 (.task 0))).arbs 0).started = [10] := by decide
 -- the system arbiter: a future received before the `Stop` may start after the loop has ended (the
 -- system thread's LocalSet goes on) — on an `Arbiter::new` thread it may not (second example) —
 -- and a future sent after the `Stop` never starts on either
